@@ -125,6 +125,7 @@ def step (st : St) (ts : List String) : St × String :=
   | "rm" :: m :: rest =>
     match parseNat? m, coord? P.dim rest with
     | some m, some (x, []) =>
+      if st.control then (st, "bad-op") else      -- control::KPIECE1 has no removeMotion
       if st.live.contains m then
         let r := remove P st.d m x
         fin { st with d := r.1, live := if r.2 then st.live.erase m else st.live } (if r.2 then "1" else "0")
@@ -140,6 +141,7 @@ def step (st : St) (ts : List String) : St × String :=
     | none => (st, "bad-op")
   | ["clear"] => fin { st with d := clear P st.d, live := [] } "ok"
   | ["pd"] =>
+    if st.control then (st, "bad-op") else
     let parent (m : Nat) : Option Nat := ((st.parents.find? (fun e => e.1 == m)).map (·.2)).join
     let r := plannerData st.d parent
     fin st s!"v={r.1} e={r.2.1} r={r.2.2}"
